@@ -7,7 +7,7 @@ EXPLANATION = ("Static MIR rules: (R14.1) for every flush of the writer chain (W
                "pass-through layers (encryption, position, raw) own no byte container, so nothing is held back by them; the compression layer's "
                "InData arm flushes the brotli CompressorWriter; (R14.3) in the fail-safe decompressor every exit taken after the inner read returned 0 "
                "passes through a BrotliDecompressStream call (only a decode call can surface output the decoder already holds); (R14.4) in the unauthenticated chunk load "
-               "nothing between the read of the chunk and its caching fails on a short or missing tag (no exact read on the inner reader there). (R14.5) after a decode step that did not fail, an explicit error result is reachable only across an edge on which the step produced 0 bytes: bytes already written to the caller's buffer are never replaced by an error. (R14.7) = R13.3: the chunk handed to the authenticated cipher is filled by read_to_end(take(inner, constant)); (R14.8) = R13.4: a decode step that produced 0 bytes is never returned as Ok(0) mid-stream; (R14.6) in the unauthenticated chunk loader only a read of 0 bytes means the end of the stream: any data read, even fewer bytes than a tag, is decrypted and cached. How many bytes repair "
+               "nothing between the read of the chunk and its caching fails on a short or missing tag (no exact read on the inner reader there). (R14.5) after a decode step that did not fail, an explicit error result is reachable only across an edge on which the step produced 0 bytes: bytes already written to the caller's buffer are never replaced by an error. (R14.7) = R13.3: the chunk handed to the authenticated cipher is filled by read_to_end(take(inner, constant)); (R14.9) every refusal the authenticated chunk loader builds itself after the chunk read is AuthenticatedDecryptionWrongTag (the error the fail-safe reader maps to the end of the authenticated data); (R14.8) = R13.4: a decode step that produced 0 bytes is never returned as Ok(0) mid-stream; (R14.6) in the unauthenticated chunk loader only a read of 0 bytes means the end of the stream: any data read, even fewer bytes than a tag, is decrypted and cached. How many bytes repair "
                "recovers is runtime and not decided.")
 TRUSTED = ['rustc MIR', 'brotli CompressorWriter::flush emits all pending input and flushes its inner writer', 'std::io::Write::flush of File/Stdout']
 ASSUMPTIONS = ['dependency flush semantics as documented']
@@ -213,6 +213,36 @@ def run(prog, rep, tier):
     # is checked, however the source splits its reads (= R13.3 / R03.7)
     from .c13 import chunk_loads_complete
     chunk_loads_complete(prog, rep, 'R14.7')
+
+    # ---------------- R14.9 "at least everything in completed chunks": whatever is wrong with the bytes *after* the last completed chunk (a tag that does not
+    # verify, a chunk cut inside its tag) is reported by the authenticated loader as AuthenticatedDecryptionWrongTag -- the one error the fail-safe reader
+    # turns into "end of the authenticated data" (Ok(0)), which lets the layers above drain what they already decoded. Any other error of its own making
+    # is propagated as a hard failure and the decoded bytes of completed chunks are dropped
+    lc = one_body(prog, rep, 'R14.9', 'mla', exact='layers::encrypt::EncryptionLayerInternal::load_in_cache')
+    if lc is not None:
+        rds = [b for b in lc.calls() if b.term.ctrait == 'std::io::Read' and b.term.cmethod in ('read_to_end', 'read', 'read_exact')]
+        rep.floor('R14.9', len(rds), 1, 'chunk reads in the authenticated loader')
+        own = []
+        for bl in lc.blocks:
+            if bl.cleanup or not any(lc.dominates(r.idx, bl.idx) for r in rds):
+                continue
+            for i, st in enumerate(bl.stmts):
+                if st.kind == 'assign' and st.place == (0, ()) and st.rv.r == 'aggregate' and st.rv.j.get('variant') == 'Err' and 'Result' in str(st.rv.j.get('adt')):
+                    op = st.rv.ops[0] if st.rv.ops else None
+                    names = set()
+                    if op is not None and op.place is not None:
+                        o = origins(lc, [op.place[0]])
+                        names |= {a.j.get('variant') for (_b, _i, a) in o.aggs if str(a.j.get('adt', '')).endswith('errors::Error')}
+                        names |= {'io::Error::' + lc.blocks[c].term.cmethod for c in o.calls if 'std::io::Error' in cnorm(lc.blocks[c].term)}
+                    elif op is not None and op.kind == 'const':
+                        names.add(str(op.k.get('txt') or op.k.get('def') or 'const').rsplit('::', 1)[-1])
+                    own.append((bl.idx, i, names))
+        rep.floor('R14.9.refusals', len(own), 1, 'refusals built by the authenticated loader after the chunk read')
+        for k, (bb, i, names) in enumerate(own):
+            ok = names == {'AuthenticatedDecryptionWrongTag'}
+            rep.ob('R14.9', ok, 'R14.9|%s|refusal#%d|is-wrong-tag' % (lc.nkey, k), 'the chunk is refused with AuthenticatedDecryptionWrongTag' if ok else
+                   'the authenticated loader refuses the bytes after the last completed chunk with %s, not AuthenticatedDecryptionWrongTag: the fail-safe reader '
+                   'propagates it as a failure instead of ending the authenticated data, and what the layers above decoded from completed chunks is lost' % sorted(names), lc.loc(bb, i))
 
     # ---------------- R14.8 repair reads on until the source ends: a step of the fail-safe decompressor that produced nothing is never reported as Ok(0)
     # mid-stream, which every caller takes for the end of the data (= R13.4 / R02.8)
